@@ -338,7 +338,7 @@ theorem shutdownLog_order (mods threads : List Name) (edges : List (Name × Name
     have h2 := count_map_zero Ev.stopPoll (Ev.shutdown m) (by intro a h; cases h)
     have h3 := count_map_one Ev.shutdown (by intro a b h; cases h; rfl) _ snd m ((smem m).mpr hm)
     simp only [List.map_append, List.count_append, h1, h2, h3]
-    exact ⟨by omega, trivial⟩
+    exact ⟨fun _ => by omega, trivial⟩
   · intro e he _
     unfold NeverAfter
     rw [List.pairwise_append]
@@ -509,5 +509,144 @@ theorem winv_init (st : St) : WInv (waitInit st) := by
   rcases he with (⟨m, _, p, _, rfl⟩ | ⟨m, _, rfl⟩) | rfl <;> rfl
 
 end waiting
+
+section kahn
+open Frappy.Spec.C15
+
+/-- the round in which Kahn's stripping removes `u` -/
+def rankOf (edges : List (Name × Name)) : Nat → List Name → Name → Nat
+  | 0, _, _ => 0
+  | n + 1, rest, u =>
+    if rest.contains u then
+      1 + rankOf edges n (rest.filter (fun v => edges.any (fun e => e.1 == v && rest.contains e.2))) u
+    else 0
+
+theorem rankOf_le (edges : List (Name × Name)) : ∀ (n : Nat) (rest : List Name) (u : Name), rankOf edges n rest u ≤ n := by
+  intro n
+  induction n with
+  | zero => intro rest u; simp [rankOf]
+  | succ n ih =>
+    intro rest u
+    simp only [rankOf]
+    split
+    · have := ih (rest.filter (fun v => edges.any (fun e => e.1 == v && rest.contains e.2))) u
+      omega
+    · omega
+
+theorem strip_sound (edges : List (Name × Name)) : ∀ (n : Nat) (rest : List Name), strip edges n rest = [] →
+    ∀ e ∈ edges, e.1 ∈ rest → e.2 ∈ rest → rankOf edges n rest e.2 < rankOf edges n rest e.1 := by
+  intro n
+  induction n with
+  | zero =>
+    intro rest h e _ h1 _
+    simp only [strip] at h
+    rw [h] at h1; cases h1
+  | succ n ih =>
+    intro rest h e he h1 h2
+    simp only [strip] at h
+    have hu : e.1 ∈ rest.filter (fun v => edges.any (fun e' => e'.1 == v && rest.contains e'.2)) := by
+      rw [List.mem_filter]
+      refine ⟨h1, ?_⟩
+      rw [List.any_eq_true]
+      exact ⟨e, he, by simp [h2]⟩
+    have c1 : rest.contains e.1 = true := by simpa using h1
+    have c2 : rest.contains e.2 = true := by simpa using h2
+    simp only [rankOf, c1, c2, if_true]
+    by_cases hd : e.2 ∈ rest.filter (fun v => edges.any (fun e' => e'.1 == v && rest.contains e'.2))
+    · have := ih _ h e he hu hd
+      omega
+    · cases n with
+      | zero =>
+        simp only [strip] at h
+        rw [h] at hu; cases hu
+      | succ n =>
+        have cd : (rest.filter (fun v => edges.any (fun e' => e'.1 == v && rest.contains e'.2))).contains e.2 = false := by
+          simpa using hd
+        have cu : (rest.filter (fun v => edges.any (fun e' => e'.1 == v && rest.contains e'.2))).contains e.1 = true := by
+          simpa using hu
+        simp only [rankOf, cd, cu, if_true]
+        simp
+        omega
+
+/-- the monitor's acyclicity test is sound: when the stripping empties the node list, the stripping rounds are a
+topological numbering (bounded by the number of nodes) of the edges inside the node list -/
+theorem acyclicB_sound (nodes : List Name) (edges : List (Name × Name)) (h : acyclicB nodes edges = true) :
+    ∃ rank : Name → Nat, (∀ e ∈ edges, e.1 ∈ nodes → e.2 ∈ nodes → rank e.2 < rank e.1) ∧
+      ∀ m, rank m ≤ nodes.length := by
+  refine ⟨rankOf edges nodes.length nodes, ?_, fun m => rankOf_le edges _ _ m⟩
+  have h0 : strip edges nodes.length nodes = [] := by
+    simpa [acyclicB, List.isEmpty_iff] using h
+  exact strip_sound edges nodes.length nodes h0
+
+theorem exists_min_rank (rank : Name → Nat) : ∀ (l : List Name), l ≠ [] → ∃ m ∈ l, ∀ x ∈ l, rank m ≤ rank x := by
+  intro l
+  induction l with
+  | nil => intro h; exact absurd rfl h
+  | cons a l ih =>
+    intro _
+    by_cases hl : l = []
+    · subst hl
+      exact ⟨a, by simp, by intro x hx; simp at hx; subst hx; exact Nat.le_refl _⟩
+    · obtain ⟨m, hm, hmin⟩ := ih hl
+      by_cases hc : rank a ≤ rank m
+      · refine ⟨a, by simp, ?_⟩
+        intro x hx
+        rcases List.mem_cons.mp hx with rfl | hx
+        · exact Nat.le_refl _
+        · exact Nat.le_trans hc (hmin x hx)
+      · refine ⟨m, by simp [hm], ?_⟩
+        intro x hx
+        rcases List.mem_cons.mp hx with rfl | hx
+        · omega
+        · exact hmin x hx
+
+theorem strip_nil (edges : List (Name × Name)) : ∀ n, strip edges n [] = [] := by
+  intro n
+  induction n with
+  | zero => rfl
+  | succ n ih => simpa [strip] using ih
+
+theorem strip_complete (nodes : List Name) (edges : List (Name × Name)) (rank : Name → Nat)
+    (hr : ∀ e ∈ edges, e.1 ∈ nodes → e.2 ∈ nodes → rank e.2 < rank e.1) :
+    ∀ (n : Nat) (rest : List Name), (∀ x ∈ rest, x ∈ nodes) → rest.length ≤ n → strip edges n rest = [] := by
+  intro n
+  induction n with
+  | zero =>
+    intro rest _ hl
+    simp only [strip]
+    exact List.eq_nil_of_length_eq_zero (Nat.le_zero.mp hl)
+  | succ n ih =>
+    intro rest hsub hl
+    simp only [strip]
+    by_cases hne : rest = []
+    · subst hne
+      simpa using strip_nil edges n
+    · obtain ⟨m, hm, hmin⟩ := exists_min_rank rank rest hne
+      apply ih
+      · intro x hx
+        exact hsub x (List.mem_filter.mp hx).1
+      · have hlt : (rest.filter (fun v => edges.any (fun e => e.1 == v && rest.contains e.2))).length < rest.length := by
+          rw [List.length_filter_lt_length_iff_exists]
+          refine ⟨m, hm, ?_⟩
+          intro hany
+          rw [List.any_eq_true] at hany
+          obtain ⟨e, he, hcond⟩ := hany
+          simp only [Bool.and_eq_true, beq_iff_eq, List.contains_eq_mem, decide_eq_true_eq] at hcond
+          obtain ⟨h1, h2⟩ := hcond
+          have := hr e he (by rw [h1]; exact hsub m hm) (hsub _ h2)
+          have := hmin _ h2
+          rw [h1] at *
+          omega
+        omega
+
+/-- ... and complete: a graph with a topological numbering is stripped to nothing -/
+theorem acyclicB_complete (nodes : List Name) (edges : List (Name × Name))
+    (h : ∃ rank : Name → Nat, ∀ e ∈ edges, e.1 ∈ nodes → e.2 ∈ nodes → rank e.2 < rank e.1) :
+    acyclicB nodes edges = true := by
+  obtain ⟨rank, hr⟩ := h
+  have := strip_complete nodes edges rank hr nodes.length nodes (fun _ hx => hx) (Nat.le_refl _)
+  simp [acyclicB, this]
+
+end kahn
 
 end Frappy.Proofs.Lifecycle
